@@ -1023,7 +1023,9 @@ class StructOf(DataType):
 
     def copy(self):
         """DataType.copy does not work when members contain enums"""
-        return StructOf(self.optional, **{k: v.copy() for k, v in self.members.items()})
+        result = StructOf(self.optional, **{k: v.copy() for k, v in self.members.items()})
+        result.client = self.client
+        return result
 
     def export_datatype(self):
         res = {'type': 'struct', 'members': dict((n, s.export_datatype())
